@@ -63,7 +63,8 @@ package fingerprint
 //@ -- C05/C06: the fingerprint functions (and everything in the module they call) use no package-level state except
 //@ -- the logging switches and read-only tables: no memo, pool or scratch buffer that another connection could share
 //@ func JA4Fingerprint :: data -> fp, err
-//@   trusted
 //@   props C05,C06,C02
-//@   assigns nothing
+//@   requires data != nil
+//@   assigns unrestricted, ja4Raw, ja4Mimic, ja4PSK, ja4Proto
+//@   ensures [C02,C06:ja4-computed-from-the-captured-record-of-this-connection-as-a-tcp-client] ja4Raw == data.ClientHelloRecord && ja4Mimic && !ja4PSK && ja4Proto == 116
 //@   structural [C05,C06,C02:no-state-shared-between-connections] no_package_state VerboseLogs Logger
